@@ -25,7 +25,8 @@ import vlib
 from props import c01
 
 LEVEL = "proof"
-RULE = ("scale families (65536..~200000 rows, thorough also ~18 million rows crossing 2^24) given by generator parameters; small "
+RULE = ("entry-point family (numba_mi / conduct_feature_ranking, heuristics MI-numba and MI-numba-randomized, ratios just below 1 as "
+        "float64 and float32, just above 0, ordinary; model at r := float32(ratio)); scale families (65536..~200000 rows, thorough also ~18 million rows crossing 2^24) given by generator parameters; small "
         "cases (Y, X, r, c, poison patterns, altered Y2): X families uniform/skewed/rare strata/many values/blocks/"
         "sparse codes, Y families random/self-pair/self-on-sample-only/function of X/noisy/constant/high-cardinality, "
         "r from a grid 0.01..0.99, float32 neighbours of k/n, ratios putting floor(r*n) on, just below and just above a "
@@ -76,6 +77,11 @@ def py_sampled(X, r):
     for v in vals:
         idx.extend(pos[v][:q])
     return q, idx
+
+
+def py_entry(X, r):
+    """rows the estimator uses: the sample when r < 1, every row when the float32 ratio is >= 1.0 (entry_indices)"""
+    return py_sampled(X, r) if r < 1.0 else (0, list(range(len(X))))
 
 
 def eval_float(t):
@@ -280,6 +286,56 @@ def scale_cases(rng, tier):
     return out
 
 
+NEAR_ONE = [1 - 1e-3, 1 - 1e-5, 0.999995, 1 - 2.0 ** -20, 1 - 2.0 ** -24, 0.99999, 0.9999999, 0.99999999, 1.0]
+HEURISTICS = ["MI-numba", "MI-numba-randomized"]
+
+
+def entry_cases(rng, tier):
+    """the Python / CLI path: importance_estimator.numba_mi and conduct_feature_ranking (heuristics MI-numba and
+    MI-numba-randomized) with the ratio as a user gives it.  The entry point is documented to pass np.float32(ratio) to the
+    estimator, so the model is evaluated at r := float32(ratio) — which is 1 (no subsampling) for 0.99999999 — and
+    c := (heuristic == 'MI-numba-randomized').  Ratios: just below 1 (as float64 and as np.float32 objects), just above 0,
+    ordinary.  Includes the alteration of Y outside the sampled rows."""
+    out = []
+    nn = 70 if tier == "quick" else 400
+    for j in range(nn):
+        rfam = ["near_one", "near_one", "near_zero", "ordinary"][j % 4]
+        for _ in range(8):
+            n = rng.randint(2, 60) if rng.random() < 0.4 else rng.randint(61, 400)
+            xfam, X = gen_X(rng, n)
+            if rfam == "near_one":
+                if len(set(X)) > 4 or rng.random() < 0.5:          # few, large strata: some rows stay outside the sample
+                    k = rng.randint(1, 3)
+                    X = [rng.randrange(k + 1) if rng.random() < 0.9 else 0 for _ in range(n)]
+                    xfam = "few_large"
+                ratio = rng.choice(NEAR_ONE)
+            elif rfam == "near_zero":
+                ratio = rng.choice([1e-6, 1e-3, 1.0 / n, 1.5 / n, 2.5 / n, (len(set(X)) + 0.5) / n, 0.01])
+            else:
+                ratio = rng.choice(GRID) if rng.random() < 0.5 else rng.uniform(0.01, 0.99)
+            kind = rng.choice(["f64", "f32"])
+            if kind == "f32":
+                ratio = f32(ratio)
+            r = f32(ratio)
+            if not (0.0 < r <= 1.0):
+                continue
+            q, idx = py_entry(X, r)
+            if rfam != "near_one" or r >= 1.0 or len(idx) < n:
+                break
+        yfam, Y = gen_Y(rng, X, idx)
+        heur = rng.choice(HEURISTICS)
+        c = heur == "MI-numba-randomized"
+        case = {"Y": Y, "X": X, "r": min(r, 1.0), "c": c, "poison": pick_poison(rng, Y, X),
+                "entry": {"via": rng.choice(["numba_mi", "conduct_feature_ranking"]), "heuristic": heur, "ratio": ratio,
+                          "ratio_kind": kind, "shape": rng.choice(["col", "flat"])},
+                "fam": ["entry-" + xfam, "entry-" + yfam, "entry-" + rfam]}
+        y2 = gen_Y2(rng, Y, X, idx, c)
+        if y2 is not None:
+            case["Y2"] = y2
+        out.append(case)
+    return out
+
+
 def load_corpus():
     d = os.path.join(vlib.VERIF, "corpus", "C04")
     out = []
@@ -298,7 +354,9 @@ def well_formed(c):
                 and p.get("layout") in ("hash", "skew", "late_minority"))
     return (isinstance(c.get("Y"), list) and isinstance(c.get("X"), list) and len(c["Y"]) == len(c["X"]) >= 1
             and all(isinstance(v, int) and 0 <= v < 2 ** 24 for v in c["Y"] + c["X"])
-            and isinstance(c.get("r"), float) and f32(c["r"]) == c["r"] and 0.0 < c["r"] < 1.0
+            and isinstance(c.get("r"), float) and f32(c["r"]) == c["r"] and 0.0 < c["r"] <= (1.0 if "entry" in c else 0.99999995)
+            and ("entry" not in c or (c["entry"].get("heuristic") in HEURISTICS and min(f32(c["entry"]["ratio"]), 1.0) == c["r"]
+                                      and c["c"] == (c["entry"]["heuristic"] == "MI-numba-randomized")))
             and (c.get("Y2") is None or (len(c["Y2"]) == len(c["X"]) and all(isinstance(v, int) and 0 <= v < 2 ** 24 for v in c["Y2"]))))
 
 
@@ -345,11 +403,11 @@ def pick_first(good):
 
 def sig(r):
     """what stratified_subsampling returned: the arrays (small cases) or their summary (scale cases)"""
-    return r["sum"] if "sum" in r else (r["ys"], r["xs"])
+    return r["sum"] if "sum" in r else (r.get("ys"), r.get("xs"))
 
 
 def show(r):
-    return r["sum"] if "sum" in r else r["xs"][-6:]
+    return r["sum"] if "sum" in r else (r.get("xs") or [])[-6:]
 
 
 def judge(case, runs, val):
@@ -447,6 +505,8 @@ def poison_of(case, m):
 def canonical(case):
     if "scale" in case:
         return {"scale": case["scale"]}
+    if "entry" in case:
+        return {"Y": case["Y"], "X": case["X"], "entry": case["entry"]}
     return {"Y": case["Y"], "X": case["X"], "r": case["r"], "c": case["c"]}
 
 
@@ -470,12 +530,15 @@ def evaluate(cases, fresh=(), max_respawn=4, crosscheck=None):
         c, runs, nr = cases[i], res[i], npres[i]
         good = {m: r for m, r in runs.items() if r and "score" in r}
         first = None if not good else pick_first(good)
-        arrays = None if first is None else (good[first]["ys"], good[first]["xs"])
+        arrays = None if first is None or "entry" in c else (good[first]["ys"], good[first]["xs"])
         shared.append(arrays is not None and tuple(arrays) == (nr["ys"], nr["xs"]))
         exprs.append(coq_expr(c, arrays, (nr["ys"], nr["xs"])))
     vals = {}
     if small:
         for i, sh, v in zip(small, shared, balanced_eval(exprs, [len(cases[i]["X"]) for i in small])):
+            if "entry" in cases[i]:
+                v = list(v)
+                v[2] = True            # the entry point returns no arrays: nothing for C04_check to judge
             vals[i] = tuple(v[:6]) + ((v[2],) if sh else (v[6],)) + tuple(v[7])     # same arrays => same C04_check verdict; v[7] = model of (Y2, X): (status, Some terms)
     out = []
     bad = []
@@ -552,6 +615,8 @@ def shrink(rng, case, budget=5):
             cnd = {"Y": [best["Y"][i] for i in keep], "X": [best["X"][i] for i in keep], "r": best["r"], "c": best["c"]}
             if best.get("Y2") is not None:
                 cnd["Y2"] = [best["Y2"][i] for i in keep]
+            if "entry" in best:
+                cnd["entry"] = best["entry"]
             m = len(keep)
             cnd["poison"] = [float(int(p) % m) for p in (best.get("poison") or [3.0, 9.0])]
             cands.append(cnd)
@@ -594,6 +659,7 @@ def check(run, replay):
         nontriv = [i for i, c in enumerate(cases) if 0 < len(py_sampled(c["X"], c["r"])[1]) < len(c["X"])]
         fresh = nontriv[:2] + run.rng.sample(nontriv, min(nf, len(nontriv)))
         fresh = sorted(set(fresh))[:nf + 2]
+        cases.extend(entry_cases(run.rng, run.tier))
         cases.extend(scale_cases(run.rng, run.tier))
     bad = [c for c in cases if not well_formed(c)]
     if bad:
@@ -631,6 +697,15 @@ def check(run, replay):
             if e["viol"]:
                 failing.append((n, i))
             continue
+        if "entry" in c:
+            if c["r"] >= 1.0:                     # float32(ratio) = 1.0: no subsampling, modelled as r = 1
+                q, ns = 0, n
+                hist["entry_ratio_rounds_to_1"] = hist.get("entry_ratio_rounds_to_1", 0) + 1
+            hist["entry_cases"] = hist.get("entry_cases", 0) + 1
+            hist["entry_" + c["entry"]["via"]] = hist.get("entry_" + c["entry"]["via"], 0) + 1
+            hist["entry_ratio_" + c["entry"]["ratio_kind"]] = hist.get("entry_ratio_" + c["entry"]["ratio_kind"], 0) + 1
+            if (c.get("fam") or ["", "", ""])[2] == "entry-near_one" and c["r"] < 1.0 and 0 < q and ns < n:
+                hist["entry_near_one_with_unsampled_rows"] = hist.get("entry_near_one_with_unsampled_rows", 0) + 1
         cnts = {}
         for x in c["X"]:
             cnts[x] = cnts.get(x, 0) + 1
